@@ -564,6 +564,32 @@ example : multi [((12 : Rat), 9893 / 10000), (1300335483507 / 100000000000, 107 
     (fun k => if k = 2500335483507 / 100000000000 then 1 else 0) = 2 * (9893 / 10000) * (107 / 10000) := by
   decide +kernel
 
+/-- **integer_formula_no_shift**: for a composition whose counts are all Python ints, `delta_mass = 0`: the shift in
+`weighted_mean_eq_average` / `lightest_peak` is the particle offset alone and the bracket is the average / monoisotopic mass
+of the composition itself. -/
+theorem integer_formula_no_shift (f : Formula) (o : Opts) (t : Dist Rat) (p d m : Rat)
+    (hraw : rawDistribution f o = .ok (t, p, d, m)) (hint : ∀ q ∈ f, q.2.isInt = true) : d = 0 := by
+  unfold rawDistribution at hraw
+  simp only [] at hraw
+  split at hraw
+  · cases hraw
+  · split at hraw
+    · cases hraw
+    · cases hraw
+    · split at hraw
+      · cases hraw
+      · simp only [Except.ok.injEq, Prod.mk.injEq] at hraw
+        rw [← hraw.2.2.1]
+        have hall : (List.filter (fun p => decide (p.2.val ≠ 0)) (popCount (popCount (popCount f eKey).2 pKey).2 nKey).2).all
+            (fun p => p.2.isInt) = true := by
+          rw [List.all_eq_true]
+          intro q hq
+          have h1 := (List.mem_filter.1 hq).1
+          simp only [popCount] at h1
+          exact hint q (List.mem_filter.1 (List.mem_filter.1 (List.mem_filter.1 h1).1).1).1
+        simp only [hall, if_true]
+
+
 /-- **no_error_after_element_loop**: once the element loop has produced a non-empty distribution, normalisation, shifting and
 scaling never fail (no `max()` of an empty dict, no division by zero), for every option value. -/
 theorem no_error_after_element_loop (f : Formula) (o : Opts) (t : Dist Rat) (p d m : Rat)
@@ -612,6 +638,7 @@ def rawOk (f : Formula) (o : Opts) : Bool :=
   | .error _ => false
 
 example : rawOk exF1 exO = true ∧ rawOk exF2 exO = true ∧ rawOk exF1 {} = true := by decide +kernel
+example : ∀ q ∈ exF1, q.2.isInt = true := by decide
 example : ∀ q ∈ cleanFormula exF2, q.1 ∈ [keyC, keyH, keyN, keyO, keyS, keyP, keySe, keyCl, keyBr, keyFe] := by decide +kernel
 example : (cleanFormula exF2, particleOf exF1) = ([(keyC, 2), (keyH, 4), (keyS, 1)], -electronMass) := by decide +kernel
 /-- the un-normalised distribution of C2 has the three peaks 24, 25.00335483507, 26.00670967014 with total abundance 1 -/
